@@ -48,20 +48,24 @@ structure TDefects where
   /-- `visit` has no case for `ConstantNode` (inserted by the optimizer or a Patch visitor): a second
       check of such a tree panics ("undefined node type") -/
   constNodePanic : Bool
+  /-- the retyping of call arguments applies to every `+ - * /` / unary `+ -` expression, also when its
+      operands are not integer literals: `Ff(+U64)`, `Fi(F64 + 1)` are accepted with the parameter's type
+      although the value keeps its own kind (`reflect: Call using uint64 as type float64`) -/
+  retypeNonLiteral : Bool
   deriving DecidableEq, Repr
 
 /-- the pinned snapshot -/
-def TDefects.asWas : TDefects := ⟨true, true, true, true, true, true, true, true, true, true⟩
+def TDefects.asWas : TDefects := ⟨true, true, true, true, true, true, true, true, true, true, true⟩
 /-- /repo's current HEAD: after the `fix:` commits 76735a9 (located error first), b6f8e35 (`AsBool` on the
 nil type), 6162013 (numeric-only literal retyping), 106fb38 (closure with a nil-typed body), e2e7046 (`in`
 needs a usable key), 265c5fa (no slicing of maps), a03872c (computed map-literal key must be a string),
 911e74d (ConstantNode).  The loose index rule and the static slice types of `filter`/`map` are pinned by
 /repo's own tests and remain. -/
-def TDefects.asIs : TDefects := ⟨false, true, false, false, true, false, false, false, false, false⟩
-def TDefects.repaired : TDefects := ⟨false, false, false, false, false, false, false, false, false, false⟩
+def TDefects.asIs : TDefects := ⟨false, true, false, false, true, false, false, false, false, false, true⟩
+def TDefects.repaired : TDefects := ⟨false, false, false, false, false, false, false, false, false, false, false⟩
 /-- intermediate flag sets used for self-tests against partially patched copies of the repository -/
-def TDefects.safeFix : TDefects := ⟨false, true, false, false, true, false, true, true, true, true⟩
-def TDefects.safeFix2 : TDefects := ⟨false, true, false, false, true, false, false, false, false, true⟩
+def TDefects.safeFix : TDefects := ⟨false, true, false, false, true, false, true, true, true, true, true⟩
+def TDefects.safeFix2 : TDefects := ⟨false, true, false, false, true, false, false, false, false, true, true⟩
 
 inductive Expect where
   | none | bool | int64 | float64
@@ -243,9 +247,20 @@ def paramFor (ins : List Ty) (variadic : Bool) (numIn offset i : Nat) : OTy :=
     | none => none
   else ins[i + offset]?
 
-/-- may an integer literal be retyped to this parameter type?  As written: always. -/
+/-- may an integer literal be retyped to this parameter type?  At the snapshot: always. -/
 def retypeOk (dt : TDefects) (inT : OTy) : Bool :=
   dt.retypeAnyParam || isNumberT inT
+
+/-- an expression built from integer literals only (with `+ - * /` and unary `+ -`) -/
+def intLiteralTree : Node → Bool
+  | .int _ _ => true
+  | .unary _ op x => (op == "+" || op == "-") && intLiteralTree x
+  | .binary _ op l r => (op == "+" || op == "/" || op == "-" || op == "*") && intLiteralTree l && intLiteralTree r
+  | _ => false
+
+/-- is the argument `a` given the parameter's type `inT` ("retyped")? -/
+def retypes (dt : TDefects) (a : Node) (inT : OTy) : Bool :=
+  isIntegerOrArith a && retypeOk dt inT && (dt.retypeNonLiteral || intLiteralTree a)
 
 /-- the `Fast` flag of `FunctionNode` -/
 def fastCall (fn : Ty) (method : Bool) : Bool :=
@@ -397,7 +412,7 @@ def funcPlan (fn : Ty) (method : Bool) (nargs : Nat) :
 /-- one argument of a call: the type it is checked with (integer literals take the parameter's type)
 and whether it fits; `none` = nil-typed argument, skipped -/
 def argType (dt : TDefects) (a : Node) (t0 inT : OTy) : OTy :=
-  if isIntegerOrArith a && retypeOk dt inT then inT else t0
+  if retypes dt a inT then inT else t0
 
 def argFits (t inT : OTy) : Bool :=
   match t with
@@ -640,7 +655,7 @@ def checkArgs (cfg : CheckCfg) (ins : List Ty) (variadic : Bool) (numIn offset :
   | i, a :: rest, st =>
     let (a', t0, st) := visit cfg a st
     let inT := paramFor ins variadic numIn offset i
-    let retype := isIntegerOrArith a && retypeOk cfg.dt inT
+    let retype := retypes cfg.dt a inT
     let a'' := if retype then setTypeForIntegers inT.kind a' else a'
     if !argFits (argType cfg.dt a t0 inT) inT then (a'' :: rest, false, st.fail a''.loc .badArgument)
     else
